@@ -21,7 +21,8 @@ PARTIAL = ["Vector.extend / += are sequences of appends (outside 'single call');
 
 def gen_cases(rng, tier):
     n = 500 if tier == "quick" else 4000
-    cases = W.scripted(rng)
+    # scripted scenarios, and waveforms over READ-ONLY borrowed buffers with spare capacity (the write itself is what fails)
+    cases = W.scripted(rng) + W.readonly_cases(rng, 60 if tier == "quick" else 800)
     for _ in range(n):
         cases.append({"seed": rng.randrange(1 << 40), "n": rng.choice([4, 8, 14, 24]), "focus": {"faulty": True}})
     return cases
